@@ -1,5 +1,12 @@
 """C03 - price index is a flow-neutral return index starting at 100 (DESIGN 5/C03)."""
 from . import backtest_rules, core_rules
+from .algo_equiv import check_equiv
+
+CAPITAL_FLOW_REF = '''
+def ref(self, target):
+    target.adjust(self.amount)
+    return True
+'''
 
 
 def run(chk):
@@ -15,3 +22,4 @@ def run(chk):
     backtest_rules.par_and_initial_price(chk, "C03")
     backtest_rules.process_data(chk, "C03")
     backtest_rules.run_loop(chk, "C03")
+    check_equiv(chk, "C03.R4", "bt/algos.py", "CapitalFlow", "__call__", CAPITAL_FLOW_REF, "capital-flow", "CapitalFlow adjusts the target by its amount as a flow that marks the tree stale")
